@@ -38,6 +38,16 @@ def main():
         data = b"MAIL FROM:" + snd + b"\r\nRCPT TO:<joe@ok.dom>\r\nDATA\r\nhi\r\n.\r\nQUIT\r\n"
         out, rc, subs = S.run(cb, data, [0])
         jobs.append((cb, data, [0], out, rc, subs))
+    # directed: IP-literal domains of this host in sender and recipient, accepted (relaying enabled / no rcpthosts), with
+    # control/localiphost present and absent (it then defaults to control/me): the envelope shows the substituted host
+    for lip in (None, b"lip.host"):
+        for rl, rh in ((b"", [b"ok.dom"]), (None, None), (b"@relay.hack", [b"ok.dom"])):
+            cl = dict(gen_cfg(rng), rcpthosts=rh, morercpthosts=[], badmailfrom=None, relayclient=rl, databytes=0, localiphost=lip, unterminated=False)
+            S.configure(cl)
+            for snd, rcp in [(b"s@[127.0.0.1]", b"x@[127.0.0.1]"), (b"joe\\@home@[127.0.0.1]", b"x@[0.0.0.0]"), (b"s@[10.9.8.7]", b"x@[127.0.0.1]x"), (b"s@x.example", b"\"a@b\"@[127.0.0.1]")]:
+                data = b"MAIL FROM:<" + snd + b">\r\nRCPT TO:<" + rcp + b">\r\nDATA\r\nhi\r\n.\r\nQUIT\r\n"
+                out, rc, subs = S.run(cl, data, [0])
+                jobs.append((cl, data, [0], out, rc, subs))
     # directed: every letter of the alphabet, in either case on either side, in both constmap-backed lists
     import string
     for L in string.ascii_lowercase:
